@@ -350,6 +350,14 @@ class AttributeCollection(MutableMapping[int, Attribute]):
         # since index() is used for equality comparisons. See lab/benchmark_attr_index.py
         if not self._idx:
             idx = ''.join(self._generate_text())
+            # an attribute which is there but prints as nothing (an explicitly empty AS_PATH) still makes a different
+            # set: without it in the index the Adj-RIB-Out grouped 'as-path [ ]' routes with routes which have no
+            # AS_PATH at all and sent them all with one of the two sets (an empty AS_PATH on eBGP for both)
+            for code in sorted(self.keys()):
+                if code in AttributeCollection.INTERNAL or self[code].NO_GENERATION:
+                    continue
+                if self.representation.get(code, ('',))[0] == 'list' and not str(self[code]):
+                    idx += ' attribute-{}-empty'.format(int(code))
             nexthop = str(self.get(Attribute.CODE.NEXT_HOP, 'missing'))
             text = '{} next-hop {}'.format(idx, nexthop) if nexthop else idx
             self._idx = text.encode()
